@@ -175,3 +175,454 @@ PBT_PROPERTY(aggregate) {
     default: pbt::label("type:uint8"), aggregate_case<uint8_t>(src, k, opsel); break;
     }
 }
+
+// =====================================================================================================================
+// Scale classes (added after seeded change C20-r3: the count product n1*n2 of combine_variance() computed in 32 bits).
+//
+// aggregate_scale: Aggregates with LARGE counts (around 2^16, 2^24, 2^31, 2^32, 2^40, random up to 2^41) built with
+//   the public state constructor Aggregate(count, mean, nvar, min, max) from an explicit weighted multiset
+//   {lo x a, mid x c, hi x b} (so every state is the state of a real multiset of values, up to the rounding of mean and
+//   nvar to double), mixed with really fed small Aggregates and empty ones, combined with + / += / reversed + in a
+//   generated order, optionally followed by a few add() calls. The result is compared with
+//     R1: the closed form computed in long double from the (count, mean, nvar) states of the parts
+//         N = sum n_i, mean = sum n_i m_i / N, nvar = sum nvar_i + sum_{i<j} n_i n_j (m_i - m_j)^2 / N
+//         (an identity that does not go through the pairwise update formula of the implementation), and
+//     R2: count / mean / sum (v - mean)^2 of the pooled weighted multiset, i.e. what "feeding all their values into one
+//         Aggregate" computes in exact arithmetic.
+//   Tolerance: |nvar - ref| <= 1e-9 * ref + slack, slack = sum over the combination steps of w (2 |delta| eta + eta^2)
+//   with w = n1 n2 / (n1 + n2), delta = difference of the two means and eta = 2^-40 (1 + max |value|), i.e. the effect
+//   of an error of 4096 ulps in every intermediate mean (double rounding gives a few ulps). A wrong weight changes
+//   nvar by O(w delta^2), which is >= 10^7 times the slack because non-zero deltas are never tiny relative to the
+//   values (values are multiples of 1/8, |value| <= 255).
+//   Count products n1*n2 >= 2^64 (2^24 with 2^40, 2^32 with 2^32, ...) are part of the domain: this class found F34
+//   (the size_t product count_ * other.count_ wrapped; fixed in /repo 71835c2). Totals stay below 2^43.
+//
+// aggregate_bulk: the property literally: two (or three) Aggregates really fed with 65536..200000 values each (rarely
+//   1000 vs. 5 000 000) from cheap seeded patterns, combined with +, reversed + and +=, compared with one Aggregate fed
+//   all values and with a two-pass long double reference.
+
+namespace {
+
+typedef long double LD;
+typedef std::vector<std::pair<double, uint64_t>> WSet; // weighted multiset: (value, multiplicity > 0)
+
+struct WStats {
+    uint64_t n = 0;
+    LD mean = 0, nvar = 0;
+    double lo = 0, hi = 0;
+};
+
+WStats wstats(const WSet& s) {
+    WStats r;
+    LD sum = 0;
+    for (auto& p : s) {
+        if (r.n == 0) r.lo = r.hi = p.first;
+        r.lo = std::min(r.lo, p.first), r.hi = std::max(r.hi, p.first);
+        r.n += p.second;
+        sum += (LD)p.first * (LD)p.second; // exact: |value*8| < 2^12, multiplicity < 2^42
+    }
+    if (r.n) r.mean = sum / (LD)r.n;
+    for (auto& p : s) r.nvar += (LD)p.second * ((LD)p.first - r.mean) * ((LD)p.first - r.mean);
+    return r;
+}
+
+struct Tol {
+    LD rel, slack;
+    bool ok(double got, LD ref, LD scale = 1) const { // |got - ref| <= rel*|ref| + slack/scale; false for NaN
+        LD d = (LD)got - ref;
+        if (d < 0) d = -d;
+        LD a = ref < 0 ? -ref : ref;
+        return d <= rel * a + slack / scale;
+    }
+};
+
+template <class T>
+void scale_case(pbt::Source& src, int k, unsigned opsel) {
+    typedef tlx::Aggregate<T> Agg;
+    static const uint64_t kBase[5] = {1ull << 16, 1ull << 24, 1ull << 31, 1ull << 32, 1ull << 40};
+    static const int kDelta[5] = {0, -1, 1, -2, 2};
+    struct Part {
+        int kind; // 0 state-constructed large, 1 fed small, 2 empty
+        WSet set;
+        WStats st;
+        uint64_t n = 0;
+        double mean = 0, nvar = 0; // the state handed to / read from tlx
+    };
+    std::vector<Part> parts((size_t)k);
+    std::vector<Agg> aggs((size_t)k);
+    // selectors first
+    int kinds[4], cls[4], dsel[4];
+    for (int i = 0; i < k; ++i) {
+        kinds[i] = (int)src.weighted({5, 2, 1});
+        cls[i] = (int)src.range(0, 6);
+        dsel[i] = (int)src.range(0, 4);
+    }
+    int nadds = (int)src.weighted({4, 1, 1, 1}); // add() calls after the combination
+    double maxabs = 0;
+    for (int i = 0; i < k; ++i) {
+        Part& p = parts[(size_t)i];
+        p.kind = kinds[i];
+        if (p.kind == 0) {
+            uint64_t n;
+            if (cls[i] < 5) n = kBase[cls[i]] + (uint64_t)(int64_t)kDelta[dsel[i]];
+            else if (cls[i] == 5) n = 1 + (src.bits(6) % (1ull << 41));
+            else n = 1 + (uint64_t)src.range(0, 3);
+            double v[3] = {(double)Gen<T>::get(src), (double)Gen<T>::get(src), (double)Gen<T>::get(src)};
+            std::sort(v, v + 3);
+            unsigned pa = (unsigned)src.range(0, 8), pb = (unsigned)src.range(0, 8);
+            if (n == 1) p.set = {{v[1], 1}};
+            else if (n == 2) p.set = {{v[0], 1}, {v[2], 1}};
+            else {
+                uint64_t a = 1 + ((n - 2) / 16) * pa, b = 1 + ((n - 2) / 16) * pb, c = n - a - b;
+                p.set = {{v[0], a}, {v[2], b}};
+                if (c) p.set.push_back({v[1], c});
+            }
+            p.st = wstats(p.set);
+            p.n = p.st.n, p.mean = (double)p.st.mean, p.nvar = (double)p.st.nvar;
+            aggs[(size_t)i] = Agg((size_t)p.n, p.mean, p.nvar, (T)p.st.lo, (T)p.st.hi);
+            switch (cls[i]) {
+            case 0: pbt::label("count:2^16"); break;
+            case 1: pbt::label("count:2^24"); break;
+            case 2: pbt::label("count:2^31"); break;
+            case 3: pbt::label("count:2^32"); break;
+            case 4: pbt::label("count:2^40"); break;
+            case 5: pbt::label(n >> 32 ? "count:random>=2^32" : "count:random<2^32"); break;
+            default: pbt::label("count:state-tiny"); break;
+            }
+        }
+        else if (p.kind == 1) {
+            size_t m = (size_t)src.range(1, 30);
+            for (size_t j = 0; j < m; ++j) {
+                T x = Gen<T>::get(src);
+                p.set.push_back({(double)x, 1});
+                aggs[(size_t)i].add(x);
+            }
+            p.st = wstats(p.set);
+            p.n = aggs[(size_t)i].count(), p.mean = aggs[(size_t)i].mean();
+            p.nvar = aggs[(size_t)i].variance(0) * (double)p.n;
+            pbt::label("part:fed-small");
+        }
+        else
+            pbt::label("part:empty");
+        for (auto& e : p.set) maxabs = std::max(maxabs, std::fabs(e.first));
+    }
+    const LD eta = std::ldexp((LD)(1.0 + maxabs), -40);
+    auto slack_of = [&](LD w, LD delta) { return w * (2 * (delta < 0 ? -delta : delta) * eta + eta * eta); };
+
+    // combine left to right; per step one of:  acc = acc + p,  acc += p,  acc = p + acc
+    Agg acc = aggs[0];
+    WSet pooled = parts[0].set;
+    LD slack = 0;
+    for (auto& e : parts[0].set)
+        if (parts[0].kind == 1) slack += slack_of(1, (LD)e.first - parts[0].st.mean);
+    int ops[4] = {0, 0, 0, 0};
+    bool used_pluseq = false, big_product = false, any_diff = false;
+    for (int i = 1; i < k; ++i) {
+        unsigned op = (opsel >> (2 * (i - 1))) & 3;
+        if (op == 3) op = 0;
+        ops[i] = (int)op;
+        const Part& p = parts[(size_t)i];
+        WStats a = wstats(pooled);
+        if (p.kind == 1)
+            for (auto& e : p.set) slack += slack_of(1, (LD)e.first - p.st.mean);
+        if (a.n && p.st.n) {
+            LD w = (LD)a.n * (LD)p.st.n / ((LD)a.n + (LD)p.st.n), delta = a.mean - p.st.mean;
+            slack += slack_of(w, delta);
+            if (delta != 0) {
+                any_diff = true;
+                unsigned __int128 prod = (unsigned __int128)a.n * p.st.n;
+                if (prod >> 32) big_product = true, pbt::label("prod>=2^32");
+                if (prod >> 48) pbt::label("prod>=2^48");
+                if (prod >> 64) pbt::label("prod>=2^64");
+            }
+        }
+        if (op == 0) acc = acc + aggs[(size_t)i];
+        else if (op == 1) acc += aggs[(size_t)i], used_pluseq = true;
+        else acc = aggs[(size_t)i] + acc;
+        pooled.insert(pooled.end(), p.set.begin(), p.set.end());
+    }
+    Agg combined = acc; // state right after the combination, before the trailing add() calls
+    WSet pooled_combined = pooled;
+    LD slack_combined = slack;
+    T added[3] = {T(), T(), T()};
+    for (int j = 0; j < nadds; ++j) {
+        T x = Gen<T>::get(src);
+        added[j] = x;
+        WStats a = wstats(pooled);
+        if (a.n) slack += slack_of((LD)a.n / ((LD)a.n + 1), a.mean - (LD)x);
+        acc.add(x);
+        pooled.push_back({(double)x, 1});
+        maxabs = std::max(maxabs, std::fabs((double)x));
+    }
+    pbt::label(used_pluseq ? "op:+=" : "op:+");
+    if (k > 2) pbt::label("chain:3+");
+    if (nadds) pbt::label("trailing-add");
+    if (big_product) pbt::nontrivial();
+    else if (any_diff) pbt::label("different-means-small-product");
+    else pbt::label("one-side-empty-or-equal-means");
+
+    auto describe = [&](std::ostream& os) {
+        os.precision(17);
+        for (int i = 0; i < k; ++i) {
+            const Part& p = parts[(size_t)i];
+            os << "A" << i << (p.kind == 0 ? " = Aggregate(" : p.kind == 1 ? " = fed{" : " = empty");
+            if (p.kind == 0)
+                os << p.n << ", " << p.mean << ", " << p.nvar << ", " << +(T)p.st.lo << ", " << +(T)p.st.hi << ") ~ {";
+            if (p.kind != 2) {
+                for (size_t j = 0; j < p.set.size(); ++j)
+                    os << (j ? ", " : "") << p.set[j].first << " x" << p.set[j].second;
+                os << "}";
+            }
+            os << "\n  ";
+        }
+        os << "combined as A0";
+        for (int i = 1; i < k; ++i) {
+            if (ops[i] == 0) os << " + A" << i;
+            else if (ops[i] == 1) os << " += A" << i;
+            else os << " (A" << i << " + acc)";
+        }
+        for (int j = 0; j < nadds; ++j) os << " .add(" << +added[j] << ")";
+        os << "\n  ";
+        show_agg("combined", combined, os);
+        if (nadds) os << "\n  ", show_agg("after add", acc, os);
+    };
+    if (pbt::verbose()) {
+        std::ostringstream os;
+        describe(os);
+        PBT_LOG(os.str() << "\n");
+    }
+
+    auto check = [&](const Agg& got, const WSet& all, LD slk, bool with_r1, const char* lc, const char* lmm,
+                     const char* lm, const char* lv, const char* ls) {
+        WStats r2 = wstats(all);
+        auto failwith = [&](const char* lab, const char* what, LD ref) {
+            std::ostringstream os;
+            describe(os);
+            os.precision(17);
+            os << "\n  " << what << ": reference " << (double)ref << " (pooled multiset: count=" << r2.n
+               << " mean=" << (double)r2.mean << " nvar=" << (double)r2.nvar << " slack=" << (double)slk << ")";
+            pbt::fail(lab, os.str());
+        };
+        if (got.count() != r2.n) failwith(lc, "count", (LD)r2.n);
+        if (r2.n) {
+            if ((double)got.min() != r2.lo) failwith(lmm, "min", r2.lo);
+            if ((double)got.max() != r2.hi) failwith(lmm, "max", r2.hi);
+        }
+        else {
+            if (got.min() != std::numeric_limits<T>::max() || got.max() != std::numeric_limits<T>::lowest())
+                failwith(lmm, "min/max of an empty aggregate", 0);
+        }
+        Tol mt{0, (LD)(k + nadds + 1) * eta};
+        if (r2.n && !mt.ok(got.mean(), r2.mean)) failwith(lm, "mean", r2.mean);
+        // references for nvar: R2 = pooled multiset; R1 = closed form from the part states
+        LD refs[2] = {r2.nvar, 0};
+        int nrefs = 1;
+        if (with_r1) {
+            LD N = 0, nv = 0, between = 0, ms = 0;
+            for (auto& p : parts) N += (LD)p.n, nv += (LD)p.nvar, ms += (LD)p.n * (LD)p.mean;
+            for (size_t i = 0; i < parts.size(); ++i)
+                for (size_t j = i + 1; j < parts.size(); ++j) {
+                    LD d = (LD)parts[i].mean - (LD)parts[j].mean;
+                    between += (LD)parts[i].n * (LD)parts[j].n * d * d;
+                }
+            if (N > 0) {
+                refs[nrefs++] = nv + between / N;
+                if (!mt.ok(got.mean(), ms / N)) failwith(lm, "mean (closed form from the part states)", ms / N);
+            }
+        }
+        Tol vt{1e-9L, slk};
+        for (int r = 0; r < nrefs; ++r) {
+            const char* which = r ? "closed form from the part states" : "pooled multiset";
+            for (unsigned ddof = 0; ddof <= 1; ++ddof) {
+                LD div = r2.n > 1 ? (LD)(r2.n - ddof) : 1, ref = r2.n > 1 ? refs[r] / div : 0;
+                if (!vt.ok(got.variance(ddof), ref, div)) failwith(lv, ddof ? "variance(1)" : which, ref);
+                if (!vt.ok(got.var(ddof), ref, div)) failwith(lv, "var(ddof)", ref);
+                // stdev: sqrt of a value within the variance tolerance (+ 1e-12 relative for the sqrt rounding)
+                LD t = vt.rel * ref + vt.slack / div;
+                LD lo = std::sqrt(std::max((LD)0, ref - t)) * (1 - 1e-12L), hi = std::sqrt(ref + t) * (1 + 1e-12L);
+                double sd = got.standard_deviation(ddof), sd2 = got.stdev(ddof);
+                if (!((LD)sd >= lo && (LD)sd <= hi && sd2 == sd)) failwith(ls, ddof ? "stdev(1)" : "stdev(0)", std::sqrt(ref));
+            }
+            LD div1 = r2.n > 1 ? (LD)(r2.n - 1) : 1;
+            if (!vt.ok(got.variance(), r2.n > 1 ? refs[r] / div1 : 0, div1)) failwith(lv, "variance()", refs[r] / div1);
+        }
+    };
+    check(combined, pooled_combined, slack_combined, true, "C20/aggregate-count", "C20/aggregate-minmax",
+          "C20/aggregate-mean", "C20/aggregate-variance", "C20/aggregate-stdev");
+    if (nadds)
+        check(acc, pooled, slack, false, "C20/aggregate-add-count", "C20/aggregate-add-minmax", "C20/aggregate-add-mean",
+              "C20/aggregate-add-variance", "C20/aggregate-add-stdev");
+}
+
+// ---- bulk: really fed aggregates --------------------------------------------------------------------------------
+
+struct XorShift {
+    uint64_t s;
+    explicit XorShift(uint64_t seed) : s(seed * 0x9E3779B97F4A7C15ull + 0x1234567ull) {
+        if (!s) s = 1;
+    }
+    uint64_t next() {
+        s ^= s << 13, s ^= s >> 7, s ^= s << 17;
+        return s;
+    }
+};
+
+template <class T>
+struct BulkVal;
+template <>
+struct BulkVal<int> {
+    static int make(int64_t base, uint64_t r, unsigned spread) { return (int)(base + (int64_t)(r % spread)); }
+};
+template <>
+struct BulkVal<uint16_t> {
+    static uint16_t make(int64_t base, uint64_t r, unsigned spread) {
+        return (uint16_t)(20000 + base + (int64_t)(r % spread));
+    }
+};
+template <>
+struct BulkVal<double> {
+    static double make(int64_t base, uint64_t r, unsigned spread) {
+        return (double)base + (double)(r % (8ull * spread)) / 8.0;
+    }
+};
+
+template <class T>
+void bulk_case(pbt::Source& src, int k, unsigned opsel) {
+    typedef tlx::Aggregate<T> Agg;
+    // selectors first
+    int shape = (int)src.weighted({26, 1, 1, 4}); // 0: all sides 65536..200000; 1: side 0 = 1000, side 1 = 5 000 000;
+                                                  // 2: side 0 = 3 000 000, side 1 = 2000; 3: 65536 +- 2 exactly
+    int pat[3];
+    for (int i = 0; i < k; ++i) pat[i] = (int)src.range(0, 2); // 0 pseudo-random, 1 ramp, 2 constant
+    uint64_t seed = src.bits(4);
+    size_t n[3];
+    int64_t base[3];
+    unsigned spread[3];
+    for (int i = 0; i < k; ++i) {
+        if (shape == 0) n[i] = 65536 + (size_t)src.range(0, 200000 - 65536);
+        else if (shape == 1) n[i] = i == 0 ? 1000 : i == 1 ? 5000000 : 70000;
+        else if (shape == 2) n[i] = i == 0 ? 3000000 : i == 1 ? 2000 : 70000;
+        else n[i] = (size_t)(65536 + (int)src.range(0, 4) - 2);
+        base[i] = (int64_t)src.range(0, 10000) - 5000 + 700 * i; // + 700 i: exhausted bytes still give different means
+        spread[i] = 1 + (unsigned)src.range(0, 999);
+    }
+    switch (shape) {
+    case 0: pbt::label("bulk:65536..200000-per-side"); break;
+    case 1: pbt::label("bulk:1000+5000000"); break;
+    case 2: pbt::label("bulk:3000000+2000"); break;
+    default: pbt::label("bulk:65536+-2"); break;
+    }
+    std::vector<Agg> parts((size_t)k);
+    Agg single;
+    XorShift rng(seed);
+    LD sum = 0;
+    size_t total = 0;
+    for (int i = 0; i < k; ++i) total += n[i];
+    std::vector<double> all;
+    all.reserve(total);
+    for (int i = 0; i < k; ++i)
+        for (size_t j = 0; j < n[i]; ++j) {
+            uint64_t r = pat[i] == 0 ? rng.next() >> 11 : pat[i] == 1 ? (uint64_t)j : 0;
+            T v = BulkVal<T>::make(base[i], r, spread[i]);
+            parts[(size_t)i].add(v);
+            single.add(v);
+            all.push_back((double)v);
+            sum += (LD)v;
+        }
+    LD mean = sum / (LD)total, ss = 0;
+    double lo = all[0], hi = all[0];
+    for (double v : all) ss += ((LD)v - mean) * ((LD)v - mean), lo = std::min(lo, v), hi = std::max(hi, v);
+    double var0 = (double)(ss / (LD)total), var1 = (double)(ss / (LD)(total - 1));
+
+    Agg acc = parts[0];
+    int ops[3] = {0, 0, 0};
+    bool used_pluseq = false, diff = false;
+    for (int i = 1; i < k; ++i) {
+        unsigned op = (opsel >> (2 * (i - 1))) & 3;
+        if (op == 3) op = 0;
+        ops[i] = (int)op;
+        if (acc.mean() != parts[(size_t)i].mean()) diff = true;
+        if (op == 0) acc = acc + parts[(size_t)i];
+        else if (op == 1) acc += parts[(size_t)i], used_pluseq = true;
+        else acc = parts[(size_t)i] + acc;
+    }
+    pbt::label(used_pluseq ? "op:+=" : "op:+");
+    if (k > 2) pbt::label("chain:3");
+    if (diff) pbt::nontrivial(), pbt::label("different-means");
+    else pbt::label("equal-means");
+
+    auto describe = [&](std::ostream& os) {
+        os.precision(17);
+        for (int i = 0; i < k; ++i)
+            os << "A" << i << " = " << n[i] << " values, pattern " << (pat[i] == 0 ? "xorshift" : pat[i] == 1 ? "ramp" : "constant")
+               << " base=" << base[i] << " spread=" << spread[i] << " (seed " << seed << ")\n  ";
+        os << "combined as A0";
+        for (int i = 1; i < k; ++i) {
+            if (ops[i] == 0) os << " + A" << i;
+            else if (ops[i] == 1) os << " += A" << i;
+            else os << " (A" << i << " + acc)";
+        }
+        os << "\n  ";
+        show_agg("combined", acc, os);
+        os << "\n  ";
+        show_agg("single  ", single, os);
+        os << "\n  two-pass: mean=" << (double)mean << " var0=" << var0 << " var1=" << var1;
+    };
+    if (pbt::verbose()) {
+        std::ostringstream os;
+        describe(os);
+        PBT_LOG(os.str() << "\n");
+    }
+#define AGG_CHECK(cond, lab)                                  \
+    do {                                                      \
+        if (!(cond)) {                                        \
+            std::ostringstream os;                            \
+            describe(os);                                     \
+            pbt::fail(lab, os.str());                         \
+        }                                                     \
+    } while (0)
+    AGG_CHECK(acc.count() == total && single.count() == total, "C20/aggregate-count");
+    AGG_CHECK(acc.min() == single.min() && acc.max() == single.max(), "C20/aggregate-minmax");
+    AGG_CHECK((double)acc.min() == lo && (double)acc.max() == hi, "C20/aggregate-minmax");
+    // same tolerances as the small target: |v| <= 2^15 and counts <= 5.2e6 keep correct code within ~1e-10 relative
+    const double MT = 1e-9, VT = 1e-7, VA = 1e-8;
+    double dm = (double)mean;
+    AGG_CHECK(std::fabs(acc.mean() - single.mean()) <= MT * std::max(1.0, std::max(std::fabs(acc.mean()), std::fabs(single.mean()))),
+              "C20/aggregate-mean");
+    AGG_CHECK(std::fabs(acc.mean() - dm) <= MT * std::max(1.0, std::fabs(dm)), "C20/aggregate-mean");
+    AGG_CHECK(close_abs_rel(acc.variance(0), single.variance(0), VT, VA), "C20/aggregate-variance");
+    AGG_CHECK(close_abs_rel(acc.variance(1), single.variance(1), VT, VA), "C20/aggregate-variance");
+    AGG_CHECK(close_abs_rel(acc.variance(0), var0, VT, VA), "C20/aggregate-variance");
+    AGG_CHECK(close_abs_rel(acc.variance(1), var1, VT, VA), "C20/aggregate-variance");
+    AGG_CHECK(close_abs_rel(acc.variance(), var1, VT, VA), "C20/aggregate-variance");
+    AGG_CHECK(close_abs_rel(acc.stdev(0), std::sqrt(var0), VT, 1e-6), "C20/aggregate-stdev");
+    AGG_CHECK(close_abs_rel(acc.standard_deviation(1), std::sqrt(var1), VT, 1e-6), "C20/aggregate-stdev");
+    AGG_CHECK(close_abs_rel(single.variance(0), var0, VT, VA) && close_abs_rel(single.variance(1), var1, VT, VA),
+              "C20/aggregate-add-variance");
+    AGG_CHECK(std::fabs(single.mean() - dm) <= MT * std::max(1.0, std::fabs(dm)), "C20/aggregate-add-mean");
+#undef AGG_CHECK
+}
+
+} // namespace
+
+PBT_PROPERTY(aggregate_scale) {
+    int type = (int)src.range(0, 2);
+    int k = 2 + (int)src.weighted({6, 2, 2}); // number of aggregates combined: mostly two
+    unsigned opsel = src.u8();
+    switch (type) {
+    case 0: pbt::label("type:int"), scale_case<int>(src, k, opsel); break;
+    case 1: pbt::label("type:double"), scale_case<double>(src, k, opsel); break;
+    default: pbt::label("type:uint8"), scale_case<uint8_t>(src, k, opsel); break;
+    }
+}
+
+PBT_PROPERTY(aggregate_bulk) {
+    int type = (int)src.range(0, 2);
+    int k = 2 + (int)src.weighted({7, 1});
+    unsigned opsel = src.u8();
+    switch (type) {
+    case 0: pbt::label("type:int"), bulk_case<int>(src, k, opsel); break;
+    case 1: pbt::label("type:double"), bulk_case<double>(src, k, opsel); break;
+    default: pbt::label("type:uint16"), bulk_case<uint16_t>(src, k, opsel); break;
+    }
+}
